@@ -8,11 +8,11 @@ LEVEL = "proof"
 DESIGN_REF = "DESIGN.md §9 C08, §12.C08"
 COQ_TARGETS = ["Properties/C08", "Pins/C08"]
 THEOREMS = [("PdfV.Properties.C08", n) for n in
-            ["C08_roundtrip_tokens", "C08_roundtrip", "C08_cur_point_sync", "C08_table", "C08_table_d0_d1_refuted",
+            ["C08_roundtrip_tokens", "C08_roundtrip", "C08_roundtrip_bytes", "C08_lex_reads_back", "C08_ser_defined", "C08_cur_point_sync", "C08_table", "C08_table_d0_d1_refuted",
              "C08_table_yields", "C08_table_Tr_refuted", "C08_no_leak", "C08_no_leak_buffer", "C08_keywords_cover_iso", "C08_reader_matches_source",
              "C08_writer_reader_agree", "C08_inline_abbreviations"]]
 ANCHORS = ["content.rs", "primitive.rs:serialize_name", "primitive.rs:PdfString", "types.rs:RenderingIntent", "object/mod.rs:ParseOptions"]
-MODES = ["ops_serialize", "ops_parse"]
+MODES = ["ops_serialize", "ops_parse", "ops_parse_bytes", "ops_roundtrip"]
 TRUSTED_BASE = ["coqc 8.16.1 kernel (vm_compute for table lemmas and witnesses; no native_compute)",
                 "gen/extract_content.py (regenerates operator / abbreviation / formatting tables of content.rs, primitive.rs, types.rs)",
                 "Extraction + ExtrOcamlBasic, ocamlfind ocamlopt 4.13.1, coq/driver/main.ml",
@@ -284,10 +284,10 @@ def same_ops_check(ops):
         if r[0] != "OK":
             return "failed: %s %s" % (r[0], r[1])
         try:
-            got = T.dec_ops(r[1])
+            got = canon_images(T.dec_ops(r[1]))
         except Exception as e:
             return "undecodable operation list: %r" % (e,)
-        if not T.ops_equal(got, ops):
+        if not T.ops_equal(got, canon_images(ops)):
             return "different operations come back (%d instead of %d; first difference at %s)" % (
                 len(got), len(ops), next((i for i, (a, b) in enumerate(zip(got, ops)) if not T.val_eq(a, b)), min(len(got), len(ops))))
         return None
@@ -310,7 +310,7 @@ def seq_cases(ops, tags=(), wild=False):
     matoms = T.enc_ops(ops, model=True)
     tags = list(tags)
     out = [remember(Case("ops_serialize", atoms, check=serialize_check(ops), mfields=matoms, tags=["serialize"] + tags), ops=ops),
-           remember(Case("ops_roundtrip", atoms, check=same_ops_check(ops), model=False, tags=["roundtrip"] + tags), ops=ops)]
+           remember(Case("ops_roundtrip", atoms, check=same_ops_check(ops), model=not wild, mfields=matoms, tags=["roundtrip"] + tags), ops=ops)]
     if not wild:
         out.append(remember(Case("ops_content", atoms, check=same_ops_check(ops), model=False, tags=["content"] + tags), ops=ops))
     return out
@@ -422,7 +422,7 @@ def inline_cases(rng, n):
         if rng.random() < 0.5:
             keys[0], keys[1] = (("Width", keys[0][1]) if keys[0][0] == "W" else keys[0]), keys[1]
         data = bytes(rng.choice(b"abcdefgh\x00\x01\xff \n0123") for _ in range(rng.choice([1, 2, 7, 30])))
-        lf = data.endswith(b"\n")       # C08-h: Lexer::seek_substr misses "\nEI" after a data byte LF
+        lf = data.endswith(b"\n")       # C08-h (fixed): Lexer::seek_substr missed "\nEI" after a data byte LF
         toks = [Word(b"BI")]
         for k, v in keys:
             toks += [Nm(k), v]
@@ -432,14 +432,74 @@ def inline_cases(rng, n):
         exp_dict = sorted(T.expand_image_dict([(k.encode(), v) for k, v in keys]))
         exp = ([("Save",)] if pre else []) + [("InlineImage", (Dict(exp_dict), data))] + ([("Restore",)] if post else [])
         c = parse_case(rng, pre + toks + post, exp, ["inline"] + (["inline-lf"] if lf else []), raw_sep=b" ")
-        if lf:
-            c.model = False
         yield c
+
+
+def bytes_twin(c):
+    """the same content stream, with the model reading the BYTES (token loop on the shared lexer / parser models)"""
+    info = INFO.get(c.key(), {})
+    t = Case("ops_parse_bytes", c.fields, check=c.check, tags=sorted(c.tags | {"bytes"}))
+    return remember(t, **info)
+
+
+def with_twins(cases):
+    for c in cases:
+        yield c
+        if c.mode == "ops_parse":
+            yield bytes_twin(c)
+
+
+def mutate(rng, data):
+    data = bytearray(data)
+    for _ in range(rng.choice([1, 1, 2, 3])):
+        k = rng.randrange(6)
+        i = rng.randrange(len(data) + 1)
+        if k == 0 and data:
+            del data[min(i, len(data) - 1)]
+        elif k == 1:
+            data[i:i] = bytes([rng.choice(b"()<>[]{}/%#\\ \n\r\t\x00+-.0123456789abEIDBR'\"\x80\xff\xc3\xa9")])
+        elif k == 2 and data:
+            data[min(i, len(data) - 1)] = rng.randrange(256)
+        elif k == 3:
+            del data[i:]
+        elif k == 4:
+            data[i:i] = rng.choice([b"<<", b">>", b"[", b"]", b"(", b")", b" BI ", b" ID ", b"\nEI", b" EI ", b" 1 0 R ", b"%c\n", b"/A#", b"/A#4",
+                                    b"stream", b" true ", b" null ", b"+", b"-", b".", b"1.", b".5", b"+.5", b"99999999999", b"<4", b"<4g>",
+                                    b"(a\\", b"\\053", b" BX ", b" EX "])
+        else:
+            j = rng.randrange(len(data) + 1)
+            data[min(i, j):max(i, j)] = b""
+    return bytes(data)
+
+
+def malformed_cases(rng, n):
+    """byte-level damage to well-formed streams: the implementation must not panic and must do what the model does"""
+    kws = [k for k, s in T.ISO_OPS.items() if s is not None and k not in ("d0", "d1")]
+    for _ in range(n):
+        toks = []
+        for _ in range(rng.randint(1, 6)):
+            kw = rng.choice(kws)
+            toks += gen_args(rng, kw) + [Word(kw.encode())]
+        data = mutate(rng, T.spell_tokens(toks, rng.choice(SEPS), rng.choice([b"\n", b" ", b"\r\n"])))
+        if has_ref(data):
+            continue
+        yield Case("ops_parse_bytes", [data], tags=["malformed", "bytes"], kind="malformed")
+
+
+def has_ref(data):
+    """`n g R` is read as a Primitive::Reference, an operand kind outside the content model"""
+    import re
+    return re.search(rb"[0-9][\x00\t\n\x0c\r ]+[+-]?[0-9]+[\x00\t\n\x0c\r ]+R", data) is not None or b"R" in data and b"%" in data
 
 
 # ------------------------------------------------------------------------------------------------
 
 def generate(rng, tier):
+    yield from with_twins(generate_base(rng, tier))
+    yield from malformed_cases(rng, 600 if tier == "quick" else 8000)
+
+
+def generate_base(rng, tier):
     quick = tier == "quick"
     yield from seq_cases([], ["empty"])
     # every constructor alone, several operand draws
@@ -475,7 +535,7 @@ def generate(rng, tier):
 
 
 def nontrivial(c):
-    return len(c.fields) >= 2 or (c.mode == "ops_parse" and len(c.fields[0]) >= 4)
+    return len(c.fields) >= 2 or (c.mode in ("ops_parse", "ops_parse_bytes") and len(c.fields[0]) >= 4)
 
 
 def same(a, b):
@@ -523,8 +583,6 @@ def classify(case, impl, model):
         return "C08-f"
     if "wild" in case.tags:
         return "C08-g"
-    if "inline-lf" in case.tags:
-        return "C08-h"
     info = INFO.get(case.key())
     if info is None or impl[0] != "OK":
         return None
@@ -533,7 +591,7 @@ def classify(case, impl, model):
         if case.mode == "ops_serialize":
             if T.ops_equal(T.spec_parse(impl[1][0] if impl[1] else b"", stale=True), info["ops"]):
                 return "C08-e"
-        elif case.mode == "ops_parse" and "toks" in info:
+        elif case.mode in ("ops_parse", "ops_parse_bytes") and "toks" in info:
             data = case.fields[0]
             if T.ops_equal(T.spec_parse(data, stale=True), T.dec_ops(impl[1])):
                 return "C08-e"
@@ -553,14 +611,14 @@ def witness_case(f, c):
         c.check = serialize_check(ops)
         c.mfields = T.enc_ops(ops, model=True)
         remember(c, ops=ops)
-    elif c.mode == "ops_parse":
+    elif c.mode in ("ops_parse", "ops_parse_bytes"):
         data = c.fields[0]
         try:
             exp = T.spec_parse(data)
         except Exception:
             exp = None
         c.check = same_ops_check(exp) if exp is not None else (lambda r: "the witness is not a valid content stream")
-        c.model = c.mfields is not None and f["id"] != "C08-h"
+        c.model = c.mfields is not None or c.mode == "ops_parse_bytes"
         remember(c, toks=[], expected=exp)
     return c
 
